@@ -84,6 +84,17 @@ def gen_history(rng, tier):
         with_dependents = [d for d in range(n) if any(d in S.deps_of(case, t) for t in range(n))] or [0]
         ops = [['run', everything, rng.random() < 0.3, False, [rng.randrange(n)]],
                ['run', everything, rng.random() < 0.7, True, [rng.choice(with_dependents)]]] + ops[:3]
+    elif rng.random() < 0.3 and n >= 2:
+        # directed pattern: everything is cached, then only some dependencies are uncached, then their (still cached)
+        # dependents are requested again: a cached task needs nothing from its dependencies
+        everything = [[t, 0] for t in range(n)]
+        with_dependents = [d for d in range(n) if any(d in S.deps_of(case, t) for t in range(n))]
+        if with_dependents:
+            gone = rng.sample(with_dependents, rng.randint(1, len(with_dependents)))
+            tops = [t for t in range(n) if t not in gone] or [n - 1]
+            ops = [['run', everything, False, True, []], ['uncache', gone],
+                   ['run', [[t, 0] for t in rng.sample(tops, rng.randint(1, len(tops)))], False, True, []],
+                   ['cached', sorted(rng.sample(range(11), 4))]] + ops[:3]
     if case['runner'] == 'fork':
         # a real worker saves its result on its own; when run_tasks raises at the first failure, results of workers whose
         # completion was never processed are (legitimately) in the cache although the coordinator never saw them: the
@@ -184,6 +195,11 @@ def run_history(h):
                 extra = [t for t in _after if t not in _before and t not in ok_exec]
                 if extra and case['runner'] != 'fork':
                     problems.append(('entry-appeared', f'tasks {extra} became cached in a run_tasks call in which they did not complete successfully'))
+                # nothing outside what this call needs (requested tasks, and the dependencies of those it has to execute) is touched
+                need = S.py_needed(dict(case, pre=(_before if case['storage'] != 'none' and h['provider'] != 'null' else []), req=op[1], bust=op[2]))
+                unneeded = [t for t in _after if t not in _before and t not in need]
+                if unneeded:
+                    problems.append(('entry-appeared-unneeded', f'tasks {unneeded} were executed and stored by a run_tasks call that did not need them (requested {[t for t, _ in op[1]]}, cached before: {_before})'))
                 # C06 monitor: a task that was cached (and bust is off) must be loaded, not executed
                 for e in rec.ev:
                     if e[0] == 'submit' and not op[2] and was_cached[e[1]] and not e[2]:
@@ -299,7 +315,53 @@ LAB_IMPORTS = 'Require Import LT.Model.Base LT.Model.Sched LT.Model.Lab LT.Gen.S
 HIST_VOLUME = {'quick': 250, 'thorough': 4000}
 
 
+def stage_unreadable_entry(report, dist):
+    """C02, directed: the cache entry of a task with dependencies exists but cannot be read (truncated data file).  The task
+    is reported as cached, so its dependencies are not part of the next run_tasks call; whatever that call does with the
+    task, its run() must not begin (none of its dependencies has finished executing or loading in this call)."""
+    from labtech.runners import ForkRunnerBackend
+    for backend in ('serial', 'fork'):
+        workdir = tempfile.mkdtemp(dir=subdir('unread'))
+        recdir = os.path.join(workdir, 'rec')
+        os.makedirs(recdir)
+        try:
+            leaves = [U.Ta(label=i) for i in range(3)]
+            parent = U.Tab(label=100, deps={'a': [leaves[0], leaves[1]], 'b': (leaves[2],)}, reads=(0, 1, 2))
+            tid_of = {parent: 100, **{l: l.label for l in leaves}}
+            storage = os.path.join(workdir, 's')
+            Lab(storage=storage, runner_backend='serial', notebook=False).run_tasks([parent], disable_progress=True, disable_top=True)
+            path = os.path.join(storage, parent.cache_key, 'data.pickle')
+            with open(path, 'r+b') as f:
+                f.truncate(3)
+            os.environ['LV_RECDIR'] = recdir
+            rec = S.Recorder(tid_of)
+            inner = SerialRunnerBackend() if backend == 'serial' else ForkRunnerBackend()
+            lab = Lab(storage=storage, runner_backend=S.SpyBackend(inner, rec), notebook=False, continue_on_failure=True)
+            res = lab.run_tasks([parent], disable_progress=True, disable_top=True)
+            dist['unreadable_entry_runs'] += 1
+            started = set()
+            for fn in os.listdir(recdir):
+                with open(os.path.join(recdir, fn)) as fh:
+                    r = json.load(fh)
+                if r['kind'] == 'start':
+                    started.add(r['label'])
+            done_deps = {e[1] for e in rec.ev if e[0] == 'finish' and e[2] is not None}
+            if 100 in started and not {0, 1, 2} <= done_deps:
+                report.violation('C02:started-before-deps',
+                                 f"backend {backend}: the task's cache entry was unreadable; its run() began in a run_tasks call in which its dependencies "
+                                 f'{sorted({0, 1, 2} - done_deps)} had neither been executed nor loaded (returned: {parent in res})',
+                                 dict(level='unreadable-entry', backend=backend))
+                return
+        finally:
+            os.environ.pop('LV_RECDIR', None)
+            shutil.rmtree(workdir, ignore_errors=True)
+
+
 def run_histories(prop, report, tier, seed, replay=None):
+    if prop == 'C02' and (replay is None or replay['input'].get('level') == 'unreadable-entry'):
+        stage_unreadable_entry(report, Counter())
+        if replay is not None:
+            return
     rng = rng_for(seed, prop, 'hist')
     hs = [replay['input']['history']] if replay else [gen_history(rng, tier) for _ in range(HIST_VOLUME[tier])]
     terms, kept = [], []
@@ -311,7 +373,7 @@ def run_histories(prop, report, tier, seed, replay=None):
         dist[f"len={len(h['ops'])}"] += 1
         for out in obs['outs']:
             dist[f'out={out[0]}'] += 1
-        owner = {'entry-lost-by-run': ['C08'], 'entry-appeared': ['C08'], 'cached-but-executed': ['C06'], 'no-result-meta': ['C06'], 'result-meta-differs': ['C06'],
+        owner = {'entry-lost-by-run': ['C08', 'C06'], 'entry-appeared': ['C08'], 'entry-appeared-unneeded': ['C08'], 'cached-but-executed': ['C06'], 'no-result-meta': ['C06'], 'result-meta-differs': ['C06'],
                  'other-task-served': ['C06'], 'loaded-value-differs': ['C06'], 'stale-read-of-failed-dep': ['C02'], 'stale-dependency-value': ['C01', 'C02'],
                  'foreign-task': ['C09', 'C08'], 'key-differs': ['C09', 'C08'], 'no-meta': ['C09'], 'listed-twice': ['C09', 'C08'], 'listed-not-cached': ['C08', 'C09']}
         for sig, what in obs['problems']:
